@@ -54,7 +54,10 @@ func c13Visible(ctx context.Context) bool {
 	return k1 == "admin"
 }
 
-func c13Rig(mode string, trace *hx.Log) *Rig {
+func c13Rig(mode string, trace *hx.Log) *Rig { return c13RigMask(mode, trace, 7) }
+
+// c13RigMask configures the tool / prompt / resource list filter iff bit 0 / 1 / 2 of mask is set.
+func c13RigMask(mode string, trace *hx.Log, mask int) *Rig {
 	toolF := func(ctx context.Context, tools []*mcp.Tool) []*mcp.Tool {
 		var out []*mcp.Tool
 		for _, t := range tools {
@@ -95,9 +98,29 @@ func c13Rig(mode string, trace *hx.Log) *Rig {
 	}
 	var r *Rig
 	if mode == "ls" {
-		r = NewRig(mode, mcp.WithSSEContextFunc(c13Both), mcp.WithSSEToolListFilter(toolF), mcp.WithSSEPromptListFilter(promptF), mcp.WithSSEResourceListFilter(resF), mcp.WithSSEMiddleware(mw))
+		opts := []interface{}{mcp.WithSSEContextFunc(c13Both), mcp.WithSSEMiddleware(mw)}
+		if mask&1 != 0 {
+			opts = append(opts, mcp.WithSSEToolListFilter(toolF))
+		}
+		if mask&2 != 0 {
+			opts = append(opts, mcp.WithSSEPromptListFilter(promptF))
+		}
+		if mask&4 != 0 {
+			opts = append(opts, mcp.WithSSEResourceListFilter(resF))
+		}
+		r = NewRig(mode, opts...)
 	} else {
-		r = NewRig(mode, mcp.WithHTTPContextFunc(c13f1), mcp.WithHTTPContextFunc(c13f2), mcp.WithToolListFilter(toolF), mcp.WithPromptListFilter(promptF), mcp.WithResourceListFilter(resF), mcp.WithMiddleware(mw))
+		opts := []interface{}{mcp.WithHTTPContextFunc(c13f1), mcp.WithHTTPContextFunc(c13f2), mcp.WithMiddleware(mw)}
+		if mask&1 != 0 {
+			opts = append(opts, mcp.WithToolListFilter(toolF))
+		}
+		if mask&2 != 0 {
+			opts = append(opts, mcp.WithPromptListFilter(promptF))
+		}
+		if mask&4 != 0 {
+			opts = append(opts, mcp.WithResourceListFilter(resF))
+		}
+		r = NewRig(mode, opts...)
 	}
 	var srv interface{} = r.Server
 	if r.SSE != nil {
@@ -165,6 +188,48 @@ func c13Judge(mode, op, token, sid, frame string) (string, string) {
 		}
 	}
 	return "", ""
+}
+
+// c13Subsets: every subset of the three list filters x {admin, guest}: a filter hides the secret
+// entry from the guest exactly in the lists whose filter is configured, and from nobody otherwise.
+func c13Subsets(tier string, i int) CaseResult {
+	modes := []string{"sj", "ss", "sl", "ls"}
+	mode := modes[i/8]
+	mask := i % 8
+	cr := CaseResult{Desc: fmt.Sprintf("mode=%s filters configured: tools=%v prompts=%v resources=%v", mode, mask&1 != 0, mask&2 != 0, mask&4 != 0), Nontrivial: true}
+	var viol []explore.Violation
+	obs := &hx.Log{}
+	res := vsched.Run(vsched.Config{}, func() {
+		r := c13RigMask(mode, &hx.Log{}, mask)
+		for _, tok := range []string{"admin", "guest"} {
+			p := NewRawPeer(r)
+			p.P.Headers["X-Tok"] = tok
+			if err := p.Handshake(); err != nil {
+				viol = append(viol, V("setup-handshake-fails", "setting the scenario up with well-behaved peers fails: %v", err))
+				return
+			}
+			for k, op := range []string{"tools/list", "prompts/list", "resources/list"} {
+				f, err := p.Call(fmt.Sprintf(`{"jsonrpc":"2.0","id":%d,"method":%q,"params":{}}`, 50+k, op), fmt.Sprint(50+k))
+				if err != nil {
+					viol = append(viol, V("call-fails:"+mode, "%s by %s: %v", op, tok, err))
+					continue
+				}
+				hasSecret := strings.Contains(f, `"secret"`)
+				want := tok == "admin" || mask&(1<<k) == 0
+				if !strings.Contains(f, `"echo"`) {
+					viol = append(viol, V("list-broken:"+mode+":"+op, "%s for %s does not list the public entry: %s", op, tok, truncate(f, 160)))
+				} else if hasSecret != want {
+					viol = append(viol, V(fmt.Sprintf("filter-subset:%s:%s:configured=%v", mode, op, mask&(1<<k) != 0), "%s asked by %q with filters %03b: secret entry listed=%v, expected %v", op, tok, mask, hasSecret, want))
+				}
+				obs.Add("%s/%s=%v", tok, op, hasSecret)
+			}
+		}
+	})
+	o := finishOutcome(res, obs, viol, true)
+	cr.ObsKey = cr.Desc + o.ObsKey
+	cr.Violations = o.Violations
+	cr.Broken = o.Broken
+	return cr
 }
 
 func c13Run(prefix []int, mode string, opsA, opsB []string) explore.Outcome {
@@ -238,9 +303,12 @@ func init() {
 		}, Doc: mode + ": admin [list, call] || guest [call, list]"})
 		c20Extra = append(c20Extra, "c13/"+mode+"/seq")
 	}
+	RegisterEnum(&Enum{Name: "c13/filter-subsets", Doc: "every subset of {tool, prompt, resource} list filters on 4 server modes: the guest misses the secret entry exactly in the lists whose filter is configured",
+		Count: func(string) int { return 32 }, Eval: c13Subsets})
 	RegisterCheck("C13", func(c *Ctx) {
 		c.Level = "exploration"
-		c.Rule = "two clients with distinct header tokens (admin/guest) concurrently issue every pair of {tools/list, tools/call, prompts/list, prompts/get, resources/list, resources/read} on Streamable (JSON, SSE, stateless) and legacy SSE servers configured with two order-sensitive HTTP context functions, list filters, a middleware and echoing handlers; DFS (sleep-set reduced) over all schedules within the preemption bound; each answer and each middleware record must carry the requester's own token/session, and a note the middleware leaves on the request's session must be the one the handler of the same request reads back"
+		c.Enumerate("c13/filter-subsets")
+		c.Rule = "two clients with distinct header tokens (admin/guest) concurrently issue every pair of {tools/list, tools/call, prompts/list, prompts/get, resources/list, resources/read} on Streamable (JSON, SSE, stateless) and legacy SSE servers configured with two order-sensitive HTTP context functions, list filters, a middleware and echoing handlers; DFS (sleep-set reduced) over all schedules within the preemption bound; each answer and each middleware record must carry the requester's own token/session, and a note the middleware leaves on the request's session must be the one the handler of the same request reads back; plus the complete enumeration of the 8 subsets of configured list filters x 4 modes"
 		c.Assume = append(c.Assume, "memnet replaces net/http", "sleep-set partial-order reduction (DESIGN 2.8)")
 		for _, mode := range []string{"sj", "ss", "sl", "ls"} {
 			for i := range c13Ops {
